@@ -231,7 +231,9 @@ Inductive target :=
 | TQuartic                                      (* logd = -1/4 sum x_i^4   , grad = -x_i^3 *)
 | TSplit (pl pr : list Qc)                      (* two-piece normal: precision pl_i for x_i < 0, pr_i for x_i >= 0 *)
 | TQuad (P : list (list Qc))                    (* logd = -1/2 x.(P x), P any square matrix (correlated, not nec. symmetric); grad = -1/2 (P + P^T) x *)
-| TBox (prec : list Qc) (bound : Qc) (bad : ext). (* Gaussian inside max|x_i| <= bound, `bad` outside *)
+| TBox (prec : list Qc) (bound : Qc) (bad : ext)  (* Gaussian inside max|x_i| <= bound, `bad` outside *)
+| TLin (b : list Qc) (t : target)                (* logd + b.x: a linear term (data misfit of a linear model) *)
+| TShift (c : Q) (t : target).                   (* logd + c: an additive constant (normalisation constants, offsets) *)
 
 Definition half : Qc := qc (1 # 2).
 Definition quarter : Qc := qc (1 # 4).
@@ -252,22 +254,26 @@ Definition inbox (b : Qc) (x : list Qc) : bool :=
 
 Definition gauss_logd (p x : list Qc) : ext := Fin (this (- (half * qsumc (vmul p (vmul x x))))%Qc).
 
-Definition t_logd (t : target) (x : list Qc) : ext :=
+Fixpoint t_logd (t : target) (x : list Qc) : ext :=
   match t with
   | TGauss p => gauss_logd p x
   | TQuartic => Fin (this (- (quarter * qsumc (vmul (vmul x x) (vmul x x))))%Qc)
   | TSplit pl pr => gauss_logd (vside pl pr x) x
   | TQuad P => Fin (this (- (half * qdot x (qmatvec P x)))%Qc)
   | TBox p b bad => if inbox b x then gauss_logd p x else bad
+  | TLin b t' => ext_add (t_logd t' x) (Fin (this (qdot b x)))
+  | TShift c t' => ext_add (t_logd t' x) (Fin c)
   end.
 
-Definition t_grad (t : target) (x : list Qc) : list Qc :=
+Fixpoint t_grad (t : target) (x : list Qc) : list Qc :=
   match t with
   | TGauss p => qvneg (vmul p x)
   | TQuartic => qvneg (vmul x (vmul x x))
   | TSplit pl pr => qvneg (vmul (vside pl pr x) x)
   | TQuad P => qvscale (- half)%Qc (qvadd (qmatvec P x) (qmattvec (length x) P x))
   | TBox p b bad => qvneg (vmul p x)
+  | TLin b t' => qvadd (t_grad t' x) b
+  | TShift c t' => t_grad t' x
   end.
 
 Definition cstate := ps Qc.
